@@ -54,6 +54,9 @@ pub fn run(rep: &Report) -> i32 {
         let ms = mutate::near_misses(base);
         rep.transition(ms.len() as u64);
         for (op, m) in ms {
+            if rep.out_of_time() {
+                break;
+            }
             let mt = m.render();
             if !seen.lock().unwrap().insert(crate::report::fxhash(mt.as_bytes())) {
                 continue;
